@@ -87,8 +87,8 @@ def main():
             text += " In addition, for every run in which nothing is left to scheduling choice, the full timed history is compared with the prediction of a small executable reference model (sim/refmodel.py); differences are reported under the property they belong to."
         if pid in ('C01', 'C02', 'C03', 'C12'):
             text += " One seed in four is an API history (constructor/requires/add/remove/bypass/keep_only/sanitize calls interleaved with read-only queries) followed by run(), one in ten a hand-designed motif (join under a full window, fan-out with mixed eligibility)."
-        if pid in ('C02', 'C04', 'C07', 'C08', 'C11', 'C12', 'C14'):
-            text += " One seed in twelve runs the same scheduler objects twice (trees without requirements), with jobs_window / timeout re-assigned, members removed and new jobs added in between, the first run sometimes in an event loop of its own; the second run is what is judged."
+        if pid in ('C01', 'C02', 'C03', 'C04', 'C07', 'C08', 'C11', 'C12', 'C14'):
+            text += " One seed in twelve runs the same scheduler objects twice, with jobs_window / timeout re-assigned, members removed and new jobs added in between, the first run sometimes in an event loop of its own; the second run is what is judged."
         checks.append({
             "property_id": pid,
             "quick_cmd": "./check {} --tier quick".format(pid),
